@@ -174,8 +174,13 @@ class SceneGraph:
             elif len(matrices) == 1:
                 matrix = matrices[0]
             else:
-                # multiply matrices into single transform
-                matrix = util.multi_dot(matrices)
+                # multiply matrices into single transform: a plain left
+                # to right product, `np.linalg.multi_dot` spends O(n^3)
+                # Python steps ordering the chain and then recurses
+                # once per matrix (RecursionError at ~1000 edges)
+                matrix = matrices[0]
+                for m in matrices[1:]:
+                    matrix = np.dot(matrix, m)
 
         # if instructed to repair rigid transforms do it here
         if self.repair_rigid is not None:
